@@ -15,3 +15,8 @@ for rho in (1e-8, 1e6):
     r=IntegrationSolver(P(), Params(rho=rho, iteration_limit=5)).solve(np.array([0.]), np.array([0.]))
     g=P().obj_grad(r.x)+P().cons_jac(r.x).T.dot(r.y)+r.d
     print('rho',rho, r.status, 'x',r.x,'y',r.y,'d',r.d,'stationarity residual',np.abs(g).max(),'iters',r.iterations)
+print('--- observation O1: IntegrationSolver with iteration_limit=0/1')
+from pygradflow.solver import Solver
+for lim in (0,1):
+    r=IntegrationSolver(P(), Params(iteration_limit=lim)).solve(np.array([0.]), np.array([0.])); r2=Solver(P(), Params(iteration_limit=lim)).solve(np.array([0.]), np.array([0.]))
+    print('limit',lim,'IntegrationSolver:',r.status.name,'iterations',r.iterations,'| Solver:',r2.status.name,'iterations',r2.iterations)
